@@ -527,6 +527,86 @@ fn hostile_cases(script: &Script, frames: &[Frame], out: &mut Vec<Case>) {
     }
 }
 
+/// Compound experiment "damage, then a crash inside a later append": the damaged directory is
+/// opened with the real library, one record is appended through the API - sized so that its first
+/// frame ends at the end of the block the writer resumed in and its tail is exactly as long as the
+/// stale Last frame that opens the next block, if there is one - and every process-crash image
+/// inside that append is recovered.  Returns (effect index, recovery, [q, pos, digest, len]).
+fn crash_in_aimed_append(
+    script: &Arc<Script>,
+    damaged: &BTreeMap<u64, FileImg>,
+    live: &[Frame],
+    seed: u64,
+    deadline: Duration,
+) -> Vec<(usize, Recovery, Value)> {
+    use crate::disk::BufModel;
+    use crate::exec::{apply_step, open_log, payload_bytes, TempDir};
+    use crate::script::{digest, Payload};
+    let mut out = Vec::new();
+    let dir = TempDir::new();
+    Image::materialize(damaged, &dir.path);
+    verif::start_recording();
+    let Ok(mut log) = open_log(&dir.path, &script.policy) else {
+        verif::stop_recording();
+        return out;
+    };
+    verif::take_events();
+    let base = Image::from_dir(&dir.path);
+    let snapshot = log.verif_snapshot();
+    let (file, cursor) = (snapshot.writer_file, snapshot.writer_offset);
+    let Some(q) = (0..script.queues.len()).find(|q| log.queue_exists(&script.queues[*q]) && script.queues[*q].len() < 200) else {
+        verif::stop_recording();
+        return out;
+    };
+    let next_block = (cursor / BLOCK + 1) * BLOCK;
+    if next_block >= 4 * BLOCK || next_block - cursor < 7 + 11 + script.queues[q].len() + 12 + 1 {
+        verif::stop_recording();
+        return out;
+    }
+    let room = next_block - cursor - 7;
+    let stale_tail = live
+        .iter()
+        .find(|frame| frame.file == file && frame.off == next_block && frame.frame_type == 4)
+        .map(|frame| frame.len - 7)
+        .unwrap_or(1000);
+    let len = room - (11 + script.queues[q].len() + 12) + stale_tail;
+    let payload = Payload { seed: seed | 1, len, embed: None };
+    let bytes = payload_bytes(script, &payload);
+    let position = match log.last_position(&script.queues[q]) {
+        Ok(Some(last)) => last + 1,
+        _ => snapshot
+            .queues
+            .iter()
+            .find(|queue| queue.name == script.queues[q])
+            .map(|queue| queue.start_position)
+            .unwrap_or(0),
+    };
+    if script.enc(position) < 0 {
+        verif::stop_recording();
+        return out;
+    }
+    let inflight = json!([q, script.enc(position), digest(&bytes), bytes.len()]);
+    let step = Step::Append { q, pos: None, batch: vec![payload] };
+    let _ = apply_step(script, &mut log, &step);
+    let events = verif::take_events();
+    verif::stop_recording();
+    std::mem::forget(log);
+    let mut model = BufModel::default();
+    let mut effects = Vec::new();
+    for event in &events {
+        model.feed(event, 0, &mut effects);
+    }
+    let mut image = base;
+    for (k, tagged) in effects.iter().enumerate() {
+        if k > 0 {
+            let recovery = crate::crash::recover(script, &image.process_image(), false, seed.wrapping_add(k as u64), deadline);
+            out.push((k, recovery, inflight.clone()));
+        }
+        image.apply(&tagged.eff, None);
+    }
+    out
+}
+
 fn struct_cases(files: &BTreeMap<u64, FileImg>, rng: &mut Rng, count: usize, out: &mut Vec<Case>) {
     let numbers: Vec<u64> = files.keys().copied().collect();
     if numbers.is_empty() {
@@ -685,6 +765,8 @@ pub fn cmd(args: &Args) {
     let thorough = args.flag("thorough");
     let noise_count = args.num("noise", 200) as usize;
     let struct_count = args.num("struct", 100) as usize;
+    let dmgcrash = args.flag("dmgcrash");
+    let compound_budget = args.num("compound", 60) as usize;
     let max_cases = args.num("max-cases", 0) as usize;
     let cont = args.flag("cont");
     let seed = args.num("seed", 1);
@@ -748,6 +830,7 @@ pub fn cmd(args: &Args) {
         }
         let mut lines = assemble(&record, Vec::new());
         let script_arc = Arc::new(script.clone());
+        let mut compound_done = 0usize;
         let mut groups: BTreeMap<String, usize> = BTreeMap::new();
         let mut group_lines: Vec<Vec<Value>> = Vec::new();
         for case in &cases {
@@ -799,6 +882,49 @@ pub fn cmd(args: &Args) {
             group_lines.push(block);
             if recovery.out == "timeout" {
                 break;
+            }
+            // damage first, then a crash inside a later append (a budget of experiments per script;
+            // header damage first: it is what moves the point where the writer resumes)
+            // (the header damage that moves the point where the reader stops or resynchronises: a zeroed
+            // type byte, a zeroed header, an invalid type; plus one checksum case per frame)
+            let moves_the_end = match (case.cls, &case.ops[0]) {
+                ("hdr", Op::Write { bytes, .. }) => bytes.len() == 1 && (bytes[0] == 0 || bytes[0] == 0xff),
+                ("hdr", Op::Zero { len, .. }) => *len == 7,
+                ("crc", Op::Write { .. }) => true,
+                _ => false,
+            };
+            if dmgcrash && recovery.out == "ok" && case.ops.len() == 1 && moves_the_end {
+                let wanted = compound_done < compound_budget;
+                if wanted {
+                    compound_done += 1;
+                    for (k, recovery2, inflight) in crash_in_aimed_append(&script_arc, &files, &live, case_seed, deadline) {
+                        output_in.add("damage_cases", 1);
+                        output_in.add("damage_dmgcrash", 1);
+                        let key2 = format!("dmgcrash|{}", group_key("dmgcrash", case.hit, &recovery2));
+                        if groups.contains_key(&key2) {
+                            continue;
+                        }
+                        let mut ops_json: Vec<Value> = case.ops.iter().map(op_json).collect();
+                        ops_json.push(json!({"k": "crashappend", "f": -1, "o": 0, "n": k}));
+                        let dmgkind = match &case.ops[0] {
+                            Op::Zero { len, .. } if *len == 7 && case.cls == "hdr" => "zerohdr".to_string(),
+                            Op::Zero { .. } => format!("{} zero-fill", case.cls),
+                            Op::Write { bytes, .. } => format!("{} write of {} bytes", case.cls, bytes.len()),
+                            _ => case.cls.to_string(),
+                        };
+                        let mut line2 = json!({
+                            "ev": "damage", "cls": "dmgcrash", "ops": ops_json, "dmgkind": dmgkind,
+                            "hit": {"entry": 0, "kind": "none", "q": -1, "first": -1, "n": 0, "step": -1, "ftype": 0},
+                            "n": 1, "out": recovery2.out, "errtext": recovery2.errtext, "accpanic": recovery2.accpanic,
+                            "peak": recovery2.peak, "allocok": 1, "ncont": 0, "inflight": inflight,
+                        });
+                        if recovery2.out == "ok" && recovery2.accpanic == 0 {
+                            line2["st"] = recovery2.st.clone();
+                        }
+                        groups.insert(key2, group_lines.len());
+                        group_lines.push(vec![line2]);
+                    }
+                }
             }
         }
         output_in.add("damage_groups", group_lines.len() as u64);
